@@ -19,9 +19,10 @@ RECORD_TYPES = [(p, w, sp) for p in (0, 1, 2) for w in (0, 1, 2) for sp in (0, 1
 
 
 class Resolver:
-    def __init__(self, world, records):
+    def __init__(self, world, records, fail_first: int = 0, fail_kind: int = 0):
         self.world = world
         self.records = records
+        self.fail_first, self.fail_kind = fail_first, fail_kind
         self.calls: t.List[tuple] = []
 
     def _answer(self, qname, rdtype, args, kw):
@@ -33,8 +34,18 @@ class Resolver:
         self.calls.append((str(qname), str(rdtype), args, dict(kw)))
         self.world.log("dns.query", str(qname), str(rdtype))
         out = []
-        for i, (prio, weight, spelling) in enumerate(self.records):
-            name = f"dc{i}.domain.test"
+        if self.fail_first > 0:
+            # resolver fault: the first queries time out / find nothing, later ones are answered
+            self.fail_first -= 1
+            self.world.stats["dns_fault"] += 1
+            import dns.exception
+            import dns.resolver as _r
+
+            raise (dns.exception.Timeout() if self.fail_kind == 0 else _r.NXDOMAIN())
+        for i, rec in enumerate(self.records):
+            prio, weight, spelling = rec[:3]
+            host = rec[3] if len(rec) > 3 else i  # several records may name the same (multi-homed) host
+            name = f"dc{host}.domain.test"
             target = dns.name.from_text(name + ".") if spelling == 0 else dns.name.from_text(name, origin=None)
             out.append(dns.rdtypes.IN.SRV.SRV(dns.rdataclass.IN, dns.rdatatype.SRV, prio, weight, 1000 + i, target))
         self.world.stats["dns"] += 1
@@ -51,23 +62,31 @@ def run(case) -> dict:
     """case: [records as indices into RECORD_TYPES, domain or None]"""
     import dpapi_ng._dns as ddns
 
-    idxs, domain = case
-    records = [RECORD_TYPES[i] for i in idxs]
+    idxs, domain = case[:2]
+    hosts = case[2] if len(case) > 2 and case[2] else None      # host id per record (repeated targets)
+    fails = case[3] if len(case) > 3 else 0                     # number of failing queries before the answered one
+    records = [RECORD_TYPES[i] + ((hosts[k],) if hosts else ()) for k, i in enumerate(idxs)]
     outs = {}
     calls = {}
     world = W.World(len(idxs))
     for fl in ("sync", "async"):
-        res = Resolver(world, records)
+        res = Resolver(world, records, fail_first=fails, fail_kind=len(idxs) % 2)
         with world.installed(resolver=res, patch_entropy=False):
-            if fl == "sync":
-                outs[fl] = drive.classify(lambda: ddns.lookup_dc(domain))
-            else:
-                outs[fl] = drive.classify(lambda: drive.run_async(world, lambda: ddns.async_lookup_dc(domain)))
-        calls[fl] = res.calls
+            for attempt in range(fails + 1):
+                # a lookup that failed (resolver fault) is simply repeated by the caller, in the same process
+                if fl == "sync":
+                    outs[fl] = drive.classify(lambda: ddns.lookup_dc(domain))
+                else:
+                    outs[fl] = drive.classify(lambda: drive.run_async(world, lambda: ddns.async_lookup_dc(domain)))
+                if attempt < fails and outs[fl].kind != "raise":
+                    break
+        calls[fl] = res.calls[-1:]
     viol = None
+    probes_extra: t.Dict[str, int] = {}
 
     def V(fl, cond, detail):
-        return common.violation("C20", cond, fl, "", "", "", f"{detail}; records(priority,weight,spelling)={records} domain={domain!r}")
+        return common.violation("C20", cond, fl, "after-resolver-fault" if fails else "", "", "",
+                                f"{detail}; records(priority,weight,spelling[,host])={records} domain={domain!r} failing queries before={fails}")
 
     want_q = f"_ldap._tcp.dc._msdcs.{domain}" if domain else "_ldap._tcp.dc._msdcs"
     best_prio = min(r[0] for r in records)
@@ -78,6 +97,8 @@ def run(case) -> dict:
             viol = V(fl, "lookup-failed", f"{o.brief()} {o.exc!r}")
             break
         c = calls[fl]
+        if fails:
+            probes_extra["after_resolver_fault"] = 1
         if len(c) != 1 or c[0][0] != want_q or c[0][1].upper() != "SRV" or c[0][3].get("search") is not True:
             viol = V(fl, "query", f"resolver was asked {c}, expected one SRV query for {want_q} with search=True")
             break
@@ -89,15 +110,17 @@ def run(case) -> dict:
         if not (0 <= i < len(records)) or records[i][0] != r.priority or records[i][1] != r.weight:
             viol = V(fl, "fields", f"port/weight/priority {r.port}/{r.weight}/{r.priority} do not belong to one record of the answer")
             break
-        if r.target != f"dc{i}.domain.test":
-            viol = V(fl, "target", f"target {r.target!r} (expected 'dc{i}.domain.test' without trailing dot)")
+        exp_t = f"dc{records[i][3] if len(records[i]) > 3 else i}.domain.test"
+        if r.target != exp_t:
+            viol = V(fl, "target", f"target {r.target!r} (expected {exp_t!r} without trailing dot)")
             break
     if not viol and outs["sync"].value != outs["async"].value:
         viol = V("sync-vs-async", "disagree", f"sync {outs['sync'].value} async {outs['async'].value}")
     spell = {r[2] for r in records}
     nontrivial = len(records) > 1 or 0 in spell
-    return {"viol": viol, "digest": world.digest(), "key": common.key_hash(case) if nontrivial else None, "fired": {"dns": world.stats.get("dns", 0), "dns_reorder": int(len(records) > 1)},
-            "probes": {"trailing_dot": int(0 in spell), "relative_target": int(1 in spell), "ties": int(sum(1 for r in records if (r[0], r[1]) == (best_prio, best_weight)) > 1)},
+    return {"viol": viol, "digest": world.digest(), "key": common.key_hash(case) if nontrivial else None,
+            "fired": {"dns": world.stats.get("dns", 0), "dns_reorder": int(len(records) > 1), "dns_fault": world.stats.get("dns_fault", 0)},
+            "probes": probes_extra | {"repeated_target": int(bool(hosts) and len(set(hosts)) < len(hosts)), "trailing_dot": int(0 in spell), "relative_target": int(1 in spell), "ties": int(sum(1 for r in records if (r[0], r[1]) == (best_prio, best_weight)) > 1)},
             "vtime_ns": world.stats.get("vtime_ns", 0)}
 
 
@@ -106,12 +129,14 @@ class C20(common.Check):
     level = "fault_enumeration"
     rule = ("case = (answer sequence, domain given or not). All sequences (= all multisets in every order) of 1..4 SRV records over "
             "priority {0,1,2} x weight {0,1,2} x target spelling {absolute with trailing dot, relative} are enumerated (111150 sequences; "
-            "length 5 = 1.9 M exhaustively in thorough, sampled in quick), each through lookup_dc and async_lookup_dc. Non-trivial = more than "
+            "length 5 = 1.9 M exhaustively in thorough, sampled in quick), each through lookup_dc and async_lookup_dc; answers of 2..3 records in which "
+            "several records name the same host (all host assignments); resolver faults (the first 1..2 queries time out or return NXDOMAIN and "
+            "the caller repeats the lookup in the same process). Non-trivial = more than "
             "one record or a trailing-dot target; distinct = distinct (sequence, domain).")
     components = {"selection code": "real (dpapi_ng._dns lookup_dc / async_lookup_dc / _get_highest_answer)", "resolver": "stub node returning real dnspython SRV rdata",
                   "async runtime": "simulated loop"}
     assumptions = ["no DNS wire format is simulated: dnspython is a dependency, not the system under test", "ties between equal (priority, weight) records are not judged beyond sync == async"]
-    required_fired = ("trailing_dot", "relative_target", "ties", "dns_reorder")
+    required_fired = ("trailing_dot", "relative_target", "ties", "dns_reorder", "repeated_target", "after_resolver_fault", "dns_fault")
 
     def exhaustive(self, tier):
         return True
@@ -126,6 +151,17 @@ class C20(common.Check):
             for seq in itertools.product(range(n), repeat=ln):
                 k += 1
                 out.append([list(seq), ("corp.example", None, "a.b.c.d.test", "")[k % 4]])  # "" = the domain of a blob whose key identifier has none
+        # answers in which several records name the same host (multi-homed DC listed twice): all host assignments for length <= 3
+        for ln in (2, 3):
+            for seq in itertools.product(range(0, n, 2), repeat=ln):
+                for hosts in itertools.product((0, 1), repeat=ln):
+                    if len(set(hosts)) < ln:
+                        k += 1
+                        out.append([list(seq), ("corp.example", None)[k % 2], list(hosts), 0])
+        # resolver faults: the first 1-2 queries fail (timeout / NXDOMAIN), the caller retries in the same process
+        rng0 = prng.stream(seed, "C20", "faults")
+        for _ in range(3000 if tier == "quick" else 60000):
+            out.append([[rng0.randrange(n) for _ in range(rng0.randint(1, 4))], rng0.choice(("corp.example", None, "")), None, rng0.randint(1, 2)])
         if tier == "quick":
             rng = prng.stream(seed, "C20")
             for _ in range(20000):
@@ -136,7 +172,9 @@ class C20(common.Check):
         return run(case)
 
     def shrink(self, case):
-        idxs, dom = case
+        idxs, dom = case[:2]
+        if len(case) > 2:
+            return
         for i in range(len(idxs)):
             if len(idxs) > 1:
                 yield [idxs[:i] + idxs[i + 1 :], dom]
@@ -145,7 +183,8 @@ class C20(common.Check):
             yield [idxs, ""]
 
     def sample_repr(self, case, res):
-        return {"records_priority_weight_spelling": [RECORD_TYPES[i] for i in case[0]], "domain": case[1]}
+        return {"records_priority_weight_spelling": [RECORD_TYPES[i] for i in case[0]], "domain": case[1], "host_per_record": case[2] if len(case) > 2 else None,
+                "failing_queries_before": case[3] if len(case) > 3 else 0}
 
 
 CHECK = C20()
